@@ -45,6 +45,16 @@ class FuncInfo:
             if isinstance(d, ast.Call):
                 d = d.func
             out.append(dotted(d))
+        # `x = attrs.field(default=attrs.Factory(method, takes_self=True))` is what the decorator `@x.default` does: the method counts as decorated with it
+        if self.cls is not None:
+            for fname, _ann, value in self.cls.fields:
+                if not isinstance(value, ast.Call):
+                    continue
+                for k in value.keywords:
+                    v = k.value
+                    if k.arg == "default" and isinstance(v, ast.Call) and (dotted(v.func) or "").endswith("Factory") and v.args and dotted(v.args[0]) == self.name \
+                            and any(kk.arg == "takes_self" and isinstance(kk.value, ast.Constant) and kk.value.value is True for kk in v.keywords):
+                        out.append(f"{fname}.default")
         return out
 
     def __repr__(self):
